@@ -77,6 +77,7 @@ def approx(ctx, pred, refa, backend, fam):
         ctx.count("f:C05.shared_approximator")
     else:
         a = pan.ConnectedComponentsInstanceApproximator(cca_backend=pan.BACKEND[backend])
+    monitors.S.backend_override = (backend,)
     try:
         with pan.quiet():
             a.approximate_instances(SemanticPair(pred.copy(), refa.copy()))
